@@ -27,6 +27,17 @@ CLAIMED = {
             'all 36 update/delete action pairs, plus pairs of references and the three surface forms in parsed documents: exactly one '
             'correctly directed FOREIGN KEY per reference, inline XOR ALTER TABLE, join table for <>, read back by the DDL reader.',
             'DESIGN.md 6/C04', ''),
+    'C07': ('One fault per document in six base documents covering every grammar rule: a K-character fragment over the BMP inserted at '
+            'token boundaries (accepted => content differs from the base and nothing was dropped) and single-character substitution '
+            'over the BMP at every structural delimiter, quote, keyword letter, colour digit and reference operator (accepted => '
+            'same delimiter / same letter up to case / hex digit / operator, closed literal sets stay closed). The solver quantifies '
+            'over the replacement characters; positions are enumerated in batches (quick: a stride sample, thorough: all).',
+            'DESIGN.md 6/C07', 'Open finding c07_unicode_upper_fold (U+0131 / U+017F accepted inside keywords) found by the solver.'),
+    'C08': ('Each token of the six base documents (or the inside of each quoted token) replaced by K arbitrary BMP characters, and '
+            'K-character soups after 18 structural prefixes (empty input, BOM, comment, inside settings / type arguments / notes / '
+            'reference comments ...): parsing raises only parse errors, pydbml.exceptions or SyntaxError, and every database that is '
+            'returned renders (.dbml/.sql of the database and of every element) without raising.',
+            'DESIGN.md 6/C08', 'Three crashes named in the property statement were repaired by fix: commits (see known_findings.json).'),
 }
 _PENDING = 'check under construction in this session (harness not yet committed); not claimed until it runs clean on the unchanged tree'
 NOT_APPLICABLE = {f'C{i:02d}': _PENDING for i in range(1, 19) if f'C{i:02d}' not in CLAIMED}
